@@ -330,11 +330,29 @@ def check_ownership(F, C):
     C.ob("C04/ownership-mutable-roots", "deb822_lossless::lossless (%d roots, all new_root_mut)" % n_mut, n_mut >= 8, "expected at least 8 new_root_mut sites")
     allowed = {"Paragraph::set", "Paragraph::insert", "Paragraph::remove", "Paragraph::rename", "Entry::detach", "Deb822::insert_empty_paragraph", "Deb822::remove_paragraph",
                "Deb822::delete_trailing_space", "ensure_trailing_newline"}
+    # a private helper whose every caller is part of the editing API (or such a helper itself) is interpreted as part of
+    # those operations; anything public, or called from elsewhere, is a mutation path the operation histories do not cover
+    g = facts.build_callgraph(F)
+    callers = {}
+    for a, bs in g.items():
+        for b in bs:
+            callers.setdefault(b.split("::{closure")[0], set()).add(a.split("::{closure")[0])
+    shortname = lambda k: k.replace("deb822_lossless::lossless::", "").split("::{closure")[0]
+
+    def within_api(k, seen=()):
+        k = k.split("::{closure")[0]
+        if shortname(k) in allowed:
+            return True
+        f = F.fns.get(k)
+        if f is None or f.get("pub") or k in seen:
+            return False
+        cs = callers.get(k, set()) - {k}
+        return bool(cs) and all(within_api(c, seen + (k,)) for c in cs)
     for k, f in sorted(F.fns.items()):
         if not k.startswith("deb822_lossless::") or "body" not in f:
             continue
         for c in facts.calls(f["body"]):
             d = facts.callee(c) or ""
             if d in ("rowan::api::SyntaxNode::<L>::splice_children", "rowan::api::SyntaxNode::<L>::detach"):
-                short = k.replace("deb822_lossless::lossless::", "").split("::{closure")[0]
-                C.ob("C04/who-may-mutate", "%s calls %s" % (short, d.split("::")[-1]), short in allowed, "tree mutation outside the editing API", c.get("sp", ""))
+                short = shortname(k)
+                C.ob("C04/who-may-mutate", "%s calls %s" % (short, d.split("::")[-1]), within_api(k), "tree mutation outside the editing API", c.get("sp", ""))
